@@ -53,10 +53,15 @@ def make_machine(torchsde, property_id):
         def _ask(self, a, b):
             self.ops.append(["raw", a, b])
             LAST["steps"] += 1
+            err = None
             try:
                 got = self.bm(a, b)
             except Exception as e:  # noqa
-                self._fail(f"crash:{type(e).__name__}", f"bm({a!r},{b!r}) raised {type(e).__name__}: {str(e)[:120]}")
+                err = f"bm({a!r},{b!r}) raised {type(e).__name__}: {str(e)[:120]}", type(e).__name__
+            if err is not None:
+                # raised outside the except block: no exception context (its location varies from run to run, which
+                # Hypothesis would report as a flaky failure)
+                self._fail(f"crash:{err[1]}", err[0])
             key = (a, b)
             if key in self.first:
                 idx, ref = self.first[key]
@@ -157,7 +162,7 @@ def make_machine(torchsde, property_id):
     return BrownianMachine
 
 
-def run(torchsde, property_id, seed, max_examples, steps):
+def run(torchsde, property_id, seed, max_examples, steps, shrink=False):
     """Run the machine; returns (violation_or_None, coverage dict). A violation is {'case', 'clause', 'msg'}."""
     import hypothesis
     from hypothesis import HealthCheck, settings
@@ -165,11 +170,15 @@ def run(torchsde, property_id, seed, max_examples, steps):
     for k in ("ops", "cfg", "fail"):
         LAST[k] = None
     LAST.update(steps=0, machines=0, repeats=0, far_repeats=0, splits=0, labels={})
+    from hypothesis import Phase
+    from . import brownian_tools
     machine = hypothesis.seed(seed)(make_machine(torchsde, property_id))
+    phases = [Phase.generate, Phase.shrink] if shrink else [Phase.generate]
     try:
-        run_state_machine_as_test(machine, settings=settings(
-            max_examples=max_examples, stateful_step_count=steps, deadline=None, database=None,
-            report_multiple_bugs=False, print_blob=False, suppress_health_check=list(HealthCheck)))
+        with brownian_tools.node_budget(200000):
+            run_state_machine_as_test(machine, settings=settings(
+                max_examples=max_examples, stateful_step_count=steps, deadline=None, database=None, phases=phases,
+                report_multiple_bugs=False, print_blob=False, suppress_health_check=list(HealthCheck)))
         viol = None
     except Violation:
         clause, msg = LAST["fail"]
